@@ -1098,3 +1098,390 @@ func runReuseAfterDone(c *mon.Ctx, index int) {
 	c.Count("reuse_after_done_"+cfg.Transport, 1)
 	c.Distinct(fmt.Sprintf("reuse/%s/%s/%d/%d/%d/%d/%v", cfg.Transport, cfg.VName, cfg.ID, cfg.MaxPending, cfg.PagesOfA, cfg.Others, b != nil))
 }
+
+// ---------------------------------------------------------------------------------------------
+// scripted socket sessions for three situations ordinary sessions produce too rarely or, when they
+// do, end as "connection closed by the client: inconclusive":
+//
+//	A  spurious frames of every kind - RESULT, continuous page, and ERROR with non-fatal codes - on ids
+//	   nobody waits on, while k >= 2 requests are outstanding that are answered only afterwards: every
+//	   one of them must still receive its own response (unknown-id/disturbed-others)
+//	B  a continuous-paging response with more pages than MaxPending, consumed in lock-step (never more
+//	   than one page pending): all pages must arrive (DSE)
+//	C  a v5 response larger than one segment whose parts are interleaved with a self-contained segment
+//	   carrying an EVENT: the response must still be reassembled and reach its request
+//
+// Nothing the peer sends here entitles the client to close the connection, and every frame is
+// round-tripped through the codec by the harness first, so a closed request is a fact, not timing.
+
+type scriptCfg struct {
+	Index       int    `json:"index"`
+	Variant     string `json:"variant"` // spurious | long-paged | large-interleaved
+	Transport   string `json:"transport"`
+	VName       string `json:"version_name"`
+	Version     uint8  `json:"version"`
+	Compression string `json:"compression"`
+	K           int    `json:"outstanding"`
+	MaxPending  int    `json:"max_pending"`
+}
+
+func makeScriptCfg(seed int64, index int) scriptCfg {
+	r := mon.NewRand(seed, uint64(12_000_000+index))
+	cfg := scriptCfg{Index: index, Variant: []string{"spurious", "spurious", "long-paged", "large-interleaved"}[index%4]}
+	b := sockConfigs[(index/4)%len(sockConfigs)]
+	if b.comp == primitive.CompressionSnappy {
+		b.comp = primitive.CompressionNone
+	}
+	switch cfg.Variant {
+	case "long-paged":
+		if !b.v.IsDse() {
+			b.v, b.name = primitive.ProtocolVersionDse2, "dse2"
+			if r.Bool() {
+				b.v, b.name = primitive.ProtocolVersionDse1, "dse1"
+			}
+		}
+	case "large-interleaved":
+		b.v, b.name = primitive.ProtocolVersion5, "v5"
+	}
+	cfg.Version, cfg.VName, cfg.Compression = uint8(b.v), b.name, string(b.comp)
+	cfg.Transport = []string{"pipe", "tcp"}[r.Intn(2)]
+	cfg.K = 2 + r.Intn(4)
+	cfg.MaxPending = 1 + r.Intn(4)
+	return cfg
+}
+
+func nonFatalError(i int, tag string) message.Message {
+	switch i % 9 {
+	case 0:
+		return &message.Invalid{ErrorMessage: tag}
+	case 1:
+		return &message.Overloaded{ErrorMessage: tag}
+	case 2:
+		return &message.ReadTimeout{ErrorMessage: tag, Consistency: primitive.ConsistencyLevelQuorum, Received: 1, BlockFor: 2, DataPresent: true}
+	case 3:
+		return &message.Unavailable{ErrorMessage: tag, Consistency: primitive.ConsistencyLevelQuorum, Required: 2, Alive: 1}
+	case 4:
+		return &message.IsBootstrapping{ErrorMessage: tag}
+	case 5:
+		return &message.Unprepared{ErrorMessage: tag, Id: []byte{1, 2, 3, 4}}
+	case 6:
+		return &message.SyntaxError{ErrorMessage: tag}
+	case 7:
+		return &message.AlreadyExists{ErrorMessage: tag, Keyspace: "ks", Table: "t"}
+	}
+	return &message.Unauthorized{ErrorMessage: tag}
+}
+
+// writeLarge sends one envelope as non-self-contained segments with `between` (a self-contained
+// segment of its own) after the first part.
+func (m *miniPeer) writeLarge(f *frame.Frame, between *frame.Frame) (parts int, err error) {
+	var env bytes.Buffer
+	if err = m.fcodec.EncodeFrame(f, &env); err != nil {
+		return 0, fmt.Errorf("harness: cannot encode: %w", err)
+	}
+	b := env.Bytes()
+	if len(b) <= segment.MaxPayloadLength {
+		return 0, fmt.Errorf("harness: envelope of %d bytes fits one segment", len(b))
+	}
+	for off := 0; off < len(b); {
+		n := len(b) - off
+		if n > segment.MaxPayloadLength {
+			n = segment.MaxPayloadLength
+		}
+		seg := &segment.Segment{Header: &segment.Header{IsSelfContained: false}, Payload: &segment.Payload{UncompressedData: b[off : off+n]}}
+		var sb bytes.Buffer
+		if err = m.scodec.EncodeSegment(seg, &sb); err != nil {
+			return parts, fmt.Errorf("harness: cannot encode segment: %w", err)
+		}
+		if _, err = m.conn.Write(sb.Bytes()); err != nil {
+			return parts, err
+		}
+		parts++
+		off += n
+		if parts == 1 && between != nil {
+			if err = m.write(between); err != nil {
+				return parts, err
+			}
+		}
+	}
+	return parts, nil
+}
+
+func runScripted(c *mon.Ctx, index int) {
+	cfg := makeScriptCfg(c.Seed, index)
+	rnd := mon.NewRand(c.Seed, uint64(12_500_000+index))
+	v := primitive.ProtocolVersion(cfg.Version)
+	comp := primitive.Compression(cfg.Compression)
+	sess := (8 << 20) + index
+	inconclusive := func(why, note string) {
+		c.Inconclusive("scripted/" + why)
+		if c.Counter("notes_scripted_"+why) < 3 {
+			c.Count("notes_scripted_"+why, 1)
+			c.Note("scripted %d (%s %s %s %s): %s: %s", index, cfg.Variant, cfg.VName, cfg.Compression, cfg.Transport, why, note)
+		}
+	}
+	cli, srv, err := connPair(cfg.Transport)
+	if err != nil {
+		inconclusive("connect-failed", err.Error())
+		return
+	}
+	ctx, cancel := context.WithCancel(context.Background())
+	defer cancel()
+	conn, err := client.VerifNewClientConn(cli, ctx, nil, comp, 16, cfg.MaxPending, time.Hour, nil)
+	if err != nil {
+		cli.Close()
+		srv.Close()
+		inconclusive("connect-failed", err.Error())
+		return
+	}
+	defer func() {
+		srv.Close()
+		for i := 0; i < 500 && !conn.IsClosed(); i++ {
+			time.Sleep(10 * time.Millisecond)
+		}
+		conn.Close()
+	}()
+	mp := newMiniPeer(srv, v, comp)
+	check := frame.NewCodecWithCompression(client.NewBodyCompressor(comp))
+	roundTrips := func(f *frame.Frame) error { // the harness' own frames must be decodable: otherwise a close proves nothing
+		var buf bytes.Buffer
+		if err := check.EncodeFrame(f, &buf); err != nil {
+			return err
+		}
+		_, err := check.DecodeFrame(&buf)
+		return err
+	}
+	var mu sync.Mutex
+	byUID := map[string]*reqLog{}
+	acks := map[string]chan struct{}{}     // uid -> one token per frame the consumer has taken
+	closedCh := map[string]chan struct{}{} // uid -> closed when the consumer saw the channel close
+	var wire []string
+	special := "" // uid of the request that gets the long / large response
+	nSpur := 0
+	peerDone := make(chan error, 1)
+	go func() {
+		peerDone <- func() error {
+			if err := mp.handshake(); err != nil {
+				return err
+			}
+			type arrival struct {
+				uid string
+				sid int16
+			}
+			var arr []arrival
+			for len(arr) < cfg.K {
+				f, err := mp.read()
+				if err != nil {
+					return err
+				}
+				if q, ok := f.Body.Message.(*message.Query); ok {
+					arr = append(arr, arrival{q.Query, f.Header.StreamId})
+				}
+			}
+			spurious := func(kind int) error {
+				// ids in use are the managed ones, 1..16
+				sid := int16(17 + rnd.Intn(100))
+				if rnd.Bool() {
+					sid = -int16(1 + rnd.Intn(127))
+				}
+				ntag := fmt.Sprintf("x%d-%d/p1L", sess, nSpur)
+				tag := ntag + "/" + pad(rnd)
+				var m message.Message
+				switch kind % 3 {
+				case 0:
+					m = nonFatalError(nSpur/3+rnd.Intn(9), tag)
+				case 1:
+					m = &message.SetKeyspaceResult{Keyspace: tag}
+				default:
+					m = &message.RowsResult{Metadata: &message.RowsMetadata{ColumnCount: 1, ContinuousPageNumber: 1, LastContinuousPage: rnd.Bool()},
+						Data: message.RowSet{message.Row{[]byte(tag)}}}
+				}
+				nSpur++
+				f := frame.NewFrame(v, sid, m)
+				if err := roundTrips(f); err != nil {
+					return fmt.Errorf("harness: spurious frame does not round-trip: %w", err)
+				}
+				mu.Lock()
+				wire = append(wire, fmt.Sprintf("%s id=%d %T", ntag, sid, m))
+				mu.Unlock()
+				return mp.write(f)
+			}
+			if cfg.Variant == "spurious" {
+				for i, n := 0, 3+rnd.Intn(6); i < n; i++ {
+					if err := spurious(i); err != nil {
+						return err
+					}
+				}
+			}
+			for i := len(arr) - 1; i > 0; i-- {
+				j := rnd.Intn(i + 1)
+				arr[i], arr[j] = arr[j], arr[i]
+			}
+			spIdx := -1
+			if cfg.Variant != "spurious" {
+				spIdx = rnd.Intn(len(arr))
+				mu.Lock()
+				special = arr[spIdx].uid
+				mu.Unlock()
+			}
+			for i, a := range arr {
+				mu.Lock()
+				rl, ack, cl := byUID[a.uid], acks[a.uid], closedCh[a.uid]
+				mu.Unlock()
+				switch {
+				case i == spIdx && cfg.Variant == "long-paged":
+					p := plan{Kind: kPaged, Pages: cfg.MaxPending + 1 + rnd.Intn(2*cfg.MaxPending+1)}
+					c.Max("max_scripted_pages_over_max_pending", int64(p.Pages-cfg.MaxPending))
+					for page := 1; page <= p.Pages; page++ {
+						f, ntag := responseFrame(v, a.sid, a.uid, p, page, rnd)
+						rl.addExp(ntag)
+						mu.Lock()
+						wire = append(wire, ntag)
+						mu.Unlock()
+						if err := mp.write(f); err != nil {
+							return err
+						}
+						// lock-step: the consumer has taken this page before the next one is sent
+						select {
+						case <-ack:
+						case <-cl:
+						case <-time.After(30 * time.Second):
+							return fmt.Errorf("harness: consumer watchdog")
+						}
+					}
+				case i == spIdx && cfg.Variant == "large-interleaved":
+					f, ntag := responseFrame(v, a.sid, a.uid, plan{Kind: kBig, Pages: 1, Big: 140_000 + rnd.Intn(200_000)}, 1, rnd)
+					ev, etag := eventFrame(v, -1, 'e', sess, 0, rnd.Intn(3))
+					rl.addExp(ntag)
+					mu.Lock()
+					wire = append(wire, ntag+" (parts, with "+etag+" after the first part)")
+					mu.Unlock()
+					parts, err := mp.writeLarge(f, ev)
+					if err != nil {
+						return err
+					}
+					c.Max("max_scripted_parts_of_interleaved_response", int64(parts))
+				default:
+					f, ntag := responseFrame(v, a.sid, a.uid, plan{Kind: respKind(rnd.Intn(3)), Pages: 1}, 1, rnd)
+					rl.addExp(ntag)
+					mu.Lock()
+					wire = append(wire, ntag)
+					mu.Unlock()
+					if err := mp.write(f); err != nil {
+						return err
+					}
+				}
+				if cfg.Variant == "spurious" && rnd.Intn(2) == 0 {
+					if err := spurious(rnd.Intn(3)); err != nil {
+						return err
+					}
+				}
+			}
+			return nil
+		}()
+		for {
+			if _, err := mp.read(); err != nil {
+				return
+			}
+		}
+	}()
+	if err := handshakeWithWatchdog(conn, v); err != nil {
+		inconclusive("handshake-failed", err.Error())
+		return
+	}
+	var rls []*reqLog
+	var dones []chan struct{}
+	for i := 0; i < cfg.K; i++ {
+		uid := uidOf(sess, i)
+		rl := &reqLog{uid: uid, allSettled: true}
+		ack, cl := make(chan struct{}, 64), make(chan struct{})
+		mu.Lock()
+		byUID[uid], acks[uid], closedCh[uid] = rl, ack, cl
+		mu.Unlock()
+		r, err := conn.Send(requestFrame(v, client.ManagedStreamId, uid))
+		if err != nil {
+			inconclusive("send-refused", err.Error())
+			return
+		}
+		rl.mu.Lock()
+		rl.sid, rl.sent = r.StreamId(), true
+		rl.mu.Unlock()
+		rls = append(rls, rl)
+		dones = append(dones, cl)
+		go func() {
+			defer close(cl)
+			for f := range r.Incoming() {
+				rl.addGot(f)
+				select {
+				case ack <- struct{}{}:
+				default:
+				}
+			}
+			rl.setClosed(r.Err())
+		}()
+	}
+	select {
+	case err := <-peerDone:
+		if err != nil && !conn.IsClosed() {
+			inconclusive("peer-failed", err.Error())
+			return
+		}
+		// a write error because the client went away is what is being judged, not a harness failure
+	case <-time.After(90 * time.Second):
+		inconclusive("peer-watchdog", "")
+		return
+	}
+	// every request is answered (channel closed after its last frame) or, if the client closed the
+	// connection, closed by that: either way every channel ends up closed
+	deadline := time.After(40 * time.Second)
+	for _, d := range dones {
+		select {
+		case <-d:
+		case <-deadline:
+			inconclusive("requests-never-closed", fmt.Sprintf("connection closed: %v", conn.IsClosed()))
+			return
+		}
+	}
+	mu.Lock()
+	sp := special
+	w := append([]string{}, wire...)
+	mu.Unlock()
+	for _, rl := range rls {
+		rl.mu.Lock()
+		answered := len(rl.exp) > 0
+		rl.mu.Unlock()
+		// a request the peer did not get to answer (its write failed because the client had gone) is
+		// still a request that did not receive its response: the emitter's intent is logged here
+		if !answered {
+			rl.addExp(rl.uid + "/p1L")
+		}
+		classes := judgeReq(rl, true, false)
+		for _, class := range classes {
+			key := vkey("scripted/"+cfg.VName, class)
+			switch class {
+			case "lost", "closed-early", "closed-with-error", "not-closed-after-last-page":
+				switch {
+				case cfg.Variant == "spurious":
+					key = "unknown-id/disturbed-others"
+				case rl.uid == sp && cfg.Variant == "long-paged":
+					key = "long-response/" + cfg.Transport + "/pages-beyond-max-pending-lost"
+				case rl.uid == sp:
+					key = "v5/large-response-interleaved-with-event/lost"
+				default:
+					key = "scripted/" + cfg.Variant + "/" + cfg.VName + "/other-request-disturbed"
+				}
+			}
+			var logs []map[string]any
+			for _, x := range rls {
+				logs = append(logs, x.excerpt())
+			}
+			c.Violation(key, map[string]any{"workload": "scripted", "index": index, "seed": c.Seed, "scenario": cfg, "request": rl.uid,
+				"classes": classes, "peer_wrote_in_this_order": clip(w, 60), "request_logs": logs, "connection_closed_by_client": conn.IsClosed()})
+		}
+	}
+	c.Eval(len(rls))
+	c.Count("scripted_sessions", 1)
+	c.Count("scripted_sessions_"+cfg.Variant, 1)
+	c.Count("scripted_spurious_frames", int64(nSpur))
+	c.Distinct(fmt.Sprintf("scripted/%s/%s/%s/%s/%d/%d/%v", cfg.Variant, cfg.VName, cfg.Compression, cfg.Transport, cfg.K, cfg.MaxPending, w))
+}
